@@ -44,6 +44,7 @@ const ddAddr = "192.0.2.88"
 // stub script, from the first label of the name:  <verb><ms>-…
 //   ok120  answer after 120 ms      sf80  SERVFAIL after 80 ms
 //   hang   answer only after the client's deadline has passed
+//   stuck  like hang, and the handler needs another 300 ms to notice that its context ended
 func ddParse(name string) (verb string, d time.Duration) {
 	lbl := strings.SplitN(strings.ToLower(name), ".", 2)[0]
 	lbl = strings.SplitN(lbl, "-", 2)[0]
@@ -79,7 +80,7 @@ func newDDEnv(qto, dedupTO time.Duration, workers int) *ddEnv {
 		e.mu.Lock()
 		e.byName[strings.ToLower(req.Question[0].Name)]++
 		e.mu.Unlock()
-		if verb == "hang" {
+		if verb == "hang" || verb == "stuck" {
 			return qto + 400*time.Millisecond
 		}
 		return d
@@ -92,6 +93,9 @@ func newDDEnv(qto, dedupTO time.Duration, workers int) *ddEnv {
 			return nil
 		}
 		verb, _ := ddParse(req.Question[0].Name)
+		if verb == "stuck" {
+			time.Sleep(300 * time.Millisecond)
+		}
 		m := new(dns.Msg)
 		m.SetReply(req)
 		m.RecursionAvailable = true
@@ -148,6 +152,10 @@ func execDedup(f []string) vlib.Res {
 		a := dd.adapter()
 		c := &client{kind: "udp", name: "ok0-warm.dd.test.", qtype: dns.TypeA, id: 9}
 		a.runUDPUntilReply(c, time.Second)
+		if len(c.replies) != 1 { // second chance: shared machine
+			c = &client{kind: "udp", name: "ok0-warm2.dd.test.", qtype: dns.TypeA, id: 10}
+			a.runUDPUntilReply(c, 2*time.Second)
+		}
 		waitFor(2*time.Second, dd.l.Srv.Quiesced)
 		time.Sleep(50 * time.Millisecond)
 		dd.baseG, _ = sdnsGoroutines()
@@ -281,7 +289,7 @@ func (e *ddEnv) burst(label string, nUDP, nTCP, nMsg int, cancel string, stagger
 			bad("dedup/client-error/"+c.kind, c.errs)
 			continue
 		case len(c.replies) == 0:
-			if e.workers > 0 && c.kind == "udp" && (verb == "hang" || delay >= e.qto/2) {
+			if e.workers > 0 && c.kind == "udp" && (verb == "hang" || verb == "stuck" || delay >= e.qto/2) {
 				// candidate finding (notes/C11.md): expired while parked in the ready queue
 				bad("dedup/no-reply/expired-in-ingress-queue", fmt.Sprintf("%s name=%s id=%d", where, name, c.id))
 				continue
